@@ -122,11 +122,22 @@ struct Branch {
 struct Case {
     rows: Vec<Row>,
     gz: bool,
+    /// rows of the identifier file, verbatim (blank / whitespace-only rows are rows)
     uuids: Vec<String>,
+    /// identifier file written with CRLF line ends
+    #[serde(default)]
+    ucrlf: bool,
+    /// identifier file ends with a line terminator
+    #[serde(default = "yes")]
+    utrail: bool,
     req: Req,
     /// None = the search itself failed
     sr: Option<(Vec<Vec<Trav>>, Vec<Vec<Branch>>)>,
     chains: Vec<Vec<Pcfg>>,
+}
+
+fn yes() -> bool {
+    true
 }
 
 // ---------------------------------------------------------------- real objects
@@ -259,6 +270,16 @@ fn row_text(r: &Row) -> String {
             "LINESTRING ({})",
             pts.iter().map(|(x, y)| format!("{} {}", coord_text(*x), coord_text(*y))).collect::<Vec<_>>().join(", ")
         ),
+    }
+}
+fn write_bytes(path: &Path, bytes: &[u8], gz: bool) {
+    if gz {
+        let f = std::fs::File::create(path).unwrap();
+        let mut e = GzEncoder::new(f, Compression::default());
+        e.write_all(bytes).unwrap();
+        e.finish().unwrap();
+    } else {
+        std::fs::write(path, bytes).unwrap();
     }
 }
 fn write_table(path: &Path, lines: &[String], gz: bool) {
@@ -471,7 +492,7 @@ fn show_response(resp: &Value, rf: Option<Fmt>, tf: Option<Fmt>) -> String {
         (Some(v), Some(f)) if single_tree(f, v) => show_tree_out(f, v),
         (Some(v), Some(f)) => format!("many{}", show_list(v.as_array().unwrap(), |t| show_tree_out(f, t))),
     };
-    let s = |k: &str| resp.get(k).map(|v| v.as_str().map(|x| x.to_string()).unwrap_or(format!("?{}", v))).unwrap_or("-".into());
+    let s = |k: &str| resp.get(k).map(|v| v.as_str().map(|x| format!("'{}'", x)).unwrap_or(format!("?{}", v))).unwrap_or("-".into());
     let n = |k: &str| resp.get(k).map(|v| v.as_u64().map(|x| x.to_string()).unwrap_or(format!("?{}", v))).unwrap_or("-".into());
     format!(
         "OK route={} tree={} ou={} du={} edges={} tsize={}",
@@ -524,7 +545,14 @@ fn run_impl(c: &Case, dir: &Path, id: usize) -> String {
     let geom_file: PathBuf = files.join(format!("geometry_{}.txt{}", id, if c.gz && id % 2 == 0 { ".gz" } else { "" }));
     let uuid_file: PathBuf = files.join(format!("uuid_{}.txt", id));
     write_table(&geom_file, &c.rows.iter().map(row_text).collect::<Vec<_>>(), c.gz);
-    write_table(&uuid_file, &c.uuids, false);
+    {
+        let eol = if c.ucrlf { "\r\n" } else { "\n" };
+        let mut text = c.uuids.join(eol);
+        if c.utrail && !c.uuids.is_empty() {
+            text.push_str(eol);
+        }
+        write_bytes(&uuid_file, text.as_bytes(), c.gz);
+    }
     let app = search_app();
     let req = request_json(&c.req);
     let mut sections = vec![];
@@ -615,7 +643,7 @@ fn coq_case_args(c: &Case) -> String {
             Pcfg::Summary => "CSummary".to_string(),
         })
     });
-    format!("{} {} {} {} {}", rows, uuids, req, sr, chains)
+    format!("{} {} {} {} {} {} {}", rows, uuids, coq_bool(c.ucrlf), coq_bool(c.utrail), req, sr, chains)
 }
 
 // ---------------------------------------------------------------- cases
@@ -627,7 +655,12 @@ fn default_chains() -> Vec<Vec<Pcfg>> {
     v
 }
 
-fn add_case(st: &mut Stream, c: Case, family: &str) {
+fn add_case(st: &mut Stream, mut c: Case, family: &str) {
+    // an unterminated empty last row is not in the file at all: "a\n" + "" is the file "a\n"
+    while !c.utrail && c.uuids.last().map(|r| r.is_empty()).unwrap_or(false) {
+        c.uuids.pop();
+        c.utrail = true;
+    }
     let id = st.next_id();
     let args = coq_case_args(&c);
     let terms = vec![format!("line_m {} {}", id, args), format!("line_s {} {}", id, args)];
@@ -692,6 +725,24 @@ fn add_case(st: &mut Stream, c: Case, family: &str) {
             st.count(&format!("linestring_points:{}", p.len().min(6)));
         }
     }
+    let blank = |r: &String| r.trim().is_empty();
+    if let Some(first_blank) = c.uuids.iter().position(blank) {
+        st.count("uuid_file:has_blank_or_whitespace_row");
+        if c.uuids[first_blank..].iter().any(|r| !blank(r)) {
+            st.count("uuid_file:blank_row_before_an_identifier");
+            if let Req::Obj(Field::Nat(o), Field::Nat(d)) = &c.req {
+                if (*o.max(d) as usize) >= first_blank && (*o.max(d) as usize) < c.uuids.len() {
+                    st.count("uuid_file:query_at_or_after_blank_row");
+                    nontrivial = true;
+                }
+            }
+        }
+    }
+    if c.uuids.iter().any(|r| !blank(r) && r.trim() != r) {
+        st.count("uuid_file:row_with_surrounding_spaces");
+    }
+    st.count(if c.ucrlf { "uuid_file:crlf" } else { "uuid_file:lf" });
+    st.count(if c.utrail { "uuid_file:terminated" } else { "uuid_file:unterminated" });
     match &c.req {
         Req::NotObject(_) => st.count("request:not_object"),
         Req::Obj(Field::Nat(o), Field::Nat(d)) => {
@@ -730,7 +781,26 @@ fn gen_trav(r: &mut Rng, e: usize) -> Trav {
     Trav { e, a: r.range(0, 9), t: r.range(1, 99), s: vec![r.range(0, 999)] }
 }
 fn gen_uuids(r: &mut Rng, n: usize) -> Vec<String> {
-    (0..n).map(|i| format!("id-{}-{:x}", i, r.below(0xffff))).collect()
+    let sparse = r.chance(1, 2);
+    let mut v: Vec<String> = vec![];
+    for i in 0..n {
+        let plain = format!("id-{}-{:x}", i, r.below(0xffff));
+        let row = if !sparse {
+            plain
+        } else {
+            match r.below(12) {
+                0 | 1 => String::new(),
+                2 => " ".repeat(r.range(1, 3) as usize),
+                3 => "\t".to_string(),
+                4 => format!(" {}", plain),
+                5 => format!("{}  ", plain),
+                6 if i > 0 => v[r.below(i as u64) as usize].clone(),
+                _ => plain,
+            }
+        };
+        v.push(row);
+    }
+    v
 }
 fn simple_req(o: u64, d: u64) -> Req {
     Req::Obj(Field::Nat(o), Field::Nat(d))
@@ -757,6 +827,8 @@ fn base_case(rows: Vec<Row>, routes: Vec<Vec<Trav>>, trees: Vec<Vec<Branch>>) ->
         rows,
         gz: false,
         uuids: (0..6).map(|i| format!("uuid-{}", i)).collect(),
+        ucrlf: false,
+        utrail: true,
         req: simple_req(1, 4),
         sr: Some((routes, trees)),
         chains: default_chains(),
@@ -882,6 +954,33 @@ fn boundary_cases(st: &mut Stream, thorough: bool) {
     add_case(st, with_req(Req::Obj(Field::Nat(99), Field::Bad(json!("x")))), "request_error_precedence");
     for v in [json!(5), json!("query"), json!([{"origin_vertex": 0, "destination_vertex": 1}]), Value::Null] {
         add_case(st, with_req(Req::NotObject(v)), "request_not_object");
+    }
+    // the identifier file: blank / whitespace-only rows at the start, in the middle, at the end, rows with
+    // surrounding spaces, duplicates; LF / CRLF; terminated or not; queries at and after the blank row.
+    // Row i is vertex i whatever the row contains.
+    let tables: Vec<Vec<&str>> = vec![
+        vec!["id-A", "id-B", "", "id-D", "id-E"],
+        vec!["", "id-B", "id-C", "id-D", "id-E"],
+        vec!["id-A", "id-B", "id-C", "id-D", ""],
+        vec!["id-A", "", "", "id-D", "id-E"],
+        vec!["id-A", "   ", "id-C", "\t", "id-E"],
+        vec!["id-A", " id-B", "id-C ", "  id-D  ", "id-E"],
+        vec!["id-A", "id-A", "", "id-A", "id-E"],
+        vec!["", "", "", "", "id-E"],
+        vec!["", " ", "", "  ", ""],
+        vec!["id-A", "id-B", "id-C", "id-D", "id-E", "", ""],
+    ];
+    let queries = [(0u64, 4u64), (0, 3), (1, 2), (3, 4), (2, 2), (4, 0), (5, 0)];
+    for (i, t) in tables.iter().enumerate() {
+        for (j, (o, d)) in queries.iter().enumerate() {
+            let mut c = with_req(simple_req(*o, *d));
+            c.uuids = t.iter().map(|x| x.to_string()).collect();
+            c.ucrlf = (i + j) % 2 == 1;
+            c.utrail = (i + j) % 4 < 2;
+            c.gz = (i + j) % 5 == 0;
+            c.chains = vec![vec![Pcfg::Uuid], vec![Pcfg::Summary, Pcfg::Uuid]];
+            add_case(st, c, "uuid_file_blank_rows");
+        }
     }
     // the geometry file: gzip with and without the .gz extension; unparsable rows never shift ids
     for id_parity in 0..2 {
@@ -1012,7 +1111,7 @@ fn random_case(r: &mut Rng) -> Case {
     ];
     r.shuffle(&mut full);
     chains.push(full);
-    let mut c = Case { rows, gz: r.chance(1, 3), uuids, req, sr: Some((routes, trees)), chains };
+    let mut c = Case { rows, gz: r.chance(1, 3), uuids, ucrlf: r.chance(1, 4), utrail: r.chance(3, 4), req, sr: Some((routes, trees)), chains };
     if r.chance(1, 40) {
         c.sr = None;
     }
